@@ -390,6 +390,13 @@ def unit_Jis8():
         elif name in ast.unparse(st) and not (isinstance(st, ast.Assign) and G.P.dotted(st.targets[0]) == "jis8_encoding_map") \
                 and not isinstance(st, ast.FunctionDef):
             raise G.P.Untranslatable(f"jis8 map: unexpected statement {ast.unparse(st)[:60]}")
+    # nothing but the one `make_encoding_map` assignment may touch the encoding map
+    for st in tree.body:
+        if isinstance(st, ast.FunctionDef):
+            continue
+        txt = ast.unparse(st)
+        if "jis8_encoding_map" in txt and txt != "jis8_encoding_map = codecs.make_encoding_map(jis8_decoding_map)":
+            raise G.P.Untranslatable(f"jis8 codec: the encoding map is modified after make_encoding_map: {txt[:60]}")
     if table is None:
         raise G.P.Untranslatable("jis8_decoding_map not found")
     # the encoding map must be the inverse built by codecs.make_encoding_map, and the codec functions plain charmap calls
